@@ -215,8 +215,23 @@ type fataler interface {
 }
 
 type ent struct {
-	c *container.Container
-	m []byte // the plain byte queue
+	c     *container.Container
+	m     []byte // the plain byte queue
+	slots int    // upper bound of the number of compartments (generator bound only, see growthBounded)
+}
+
+// Histories are bounded: appending a container to itself (or two containers to
+// each other in turn) doubles the number of compartments with every step, 30
+// such steps exhaust the memory of the test process whatever the library does.
+const (
+	maxSlots = 1 << 12
+	maxHeld  = 1 << 16
+)
+
+// growthBounded tells the generators whether AppendContainer*(other) on tgt stays within the bounds.
+func (w *world) growthBounded(tgt, other int) bool {
+	a, b := w.pool[tgt], w.pool[other]
+	return a.slots+b.slots+1 <= maxSlots && len(a.m)+len(b.m)+10 <= maxHeld
 }
 
 const maxPool = 4
@@ -257,6 +272,11 @@ type world struct {
 
 func newWorld(t fataler) *world {
 	return &world{t: t, prepRun: map[int]int{}, drained: map[int]bool{}, everHeld: map[int]bool{}}
+}
+
+// newLightWorld: for the enumerations; no class flags are collected.
+func newLightWorld(t fataler) *world {
+	return &world{t: t, light: true}
 }
 
 func (w *world) history() string {
@@ -327,33 +347,42 @@ func snapshot(c *container.Container) ([]byte, error) {
 }
 
 // check compares the observable state of one container with its model.
-func (w *world) check(i int, after string) {
+func (w *world) check(i int, after any) {
 	e := w.pool[i]
 	if l := e.c.Length(); l != len(e.m) {
-		w.fail("after %s: c%d.Length() = %d, the byte queue holds %d bytes (%s)", after, i, l, len(e.m), hx(e.m))
+		w.fail("after %v: c%d.Length() = %d, the byte queue holds %d bytes (%s)", after, i, l, len(e.m), hx(e.m))
 	}
 	if h := e.c.HoldsData(); h != (len(e.m) > 0) {
-		w.fail("after %s: c%d.HoldsData() = %v, the byte queue holds %d bytes", after, i, h, len(e.m))
+		w.fail("after %v: c%d.HoldsData() = %v, the byte queue holds %d bytes", after, i, h, len(e.m))
 	}
 	got, err := snapshot(e.c)
 	if err != nil {
-		w.fail("after %s: c%d.WriteAllTo(buffer) failed: %v", after, i, err)
+		w.fail("after %v: c%d.WriteAllTo(buffer) failed: %v", after, i, err)
 	}
 	if !bytes.Equal(got, e.m) {
-		w.fail("after %s: c%d holds %s, the byte queue holds %s", after, i, hx(got), hx(e.m))
+		w.fail("after %v: c%d holds %s, the byte queue holds %s", after, i, hx(got), hx(e.m))
 	}
 }
 
-func (w *world) checkAll(after string) {
+func (w *world) checkAll(after any) {
 	for i := range w.pool {
 		w.check(i, after)
 	}
 }
 
+type retireName struct {
+	i   int
+	why string
+}
+
+func (r retireName) String() string {
+	return fmt.Sprintf("final CompileData/GetAll of c%d (%s)", r.i, r.why)
+}
+
 // retire verifies a container completely (compile, then drain) and drops it.
 func (w *world) retire(i int, why string) {
 	e := w.pool[i]
-	w.guard(fmt.Sprintf("final CompileData/GetAll of c%d (%s)", i, why), func() {
+	w.guard(retireName{i, why}, func() {
 		cd := e.c.CompileData()
 		if !bytes.Equal(cd, e.m) {
 			w.fail("%s: c%d.CompileData() = %s, the byte queue holds %s", why, i, hx(cd), hx(e.m))
@@ -374,22 +403,22 @@ func (w *world) finish() {
 	}
 }
 
-func (w *world) guard(what string, f func()) {
+func (w *world) guard(what any, f func()) {
 	defer func() {
 		if r := recover(); r != nil {
 			// rapid aborts a case by panicking with its own (unexported) types: pass those on
 			if tn := fmt.Sprintf("%T", r); strings.HasPrefix(tn, "rapid.") || strings.HasPrefix(tn, "*rapid.") {
 				panic(r)
 			}
-			w.fail("%s panicked: %v", what, r)
+			w.fail("%v panicked: %v", what, r)
 		}
 	}()
 	f()
 }
 
 // adopt adds a split-off / new container to the pool.
-func (w *world) adopt(c *container.Container, m []byte) int {
-	ne := &ent{c: c, m: m}
+func (w *world) adopt(c *container.Container, m []byte, slots int) int {
+	ne := &ent{c: c, m: m, slots: slots}
 	if len(w.pool) < maxPool {
 		w.pool = append(w.pool, ne)
 		return len(w.pool) - 1
@@ -417,7 +446,7 @@ func isHuge(n, held int) bool { return n > held+(1<<20) }
 // apply runs one operation on the real container and the model.
 func (w *world) apply(o op) {
 	w.hist = append(w.hist, o)
-	name := o.String()
+	name := o // rendered only when a message is printed
 	if o.kind == opNew {
 		w.guard(name, func() { w.applyNew(o) })
 		w.checkAll(name)
@@ -436,6 +465,14 @@ func (w *world) apply(o op) {
 		}
 	}
 	w.guard(name, func() { w.applyTo(o, e, name) })
+	switch {
+	case o.kind == opAppendContainer || o.kind == opAppendContainerAsBlock:
+		e.slots += w.pool[o.other].slots + 1
+	case o.kind == opReplace || o.kind == opCompile || o.kind == opMarshalJSON:
+		e.slots = 1
+	case isPut(o.kind):
+		e.slots += 6 // a put may also add up to five spare slots (renewCompartments)
+	}
 	w.checkAll(name)
 	if !w.light && len(e.m) == 0 && isConsuming(o.kind) {
 		w.drained[o.tgt] = true
@@ -549,14 +586,14 @@ func (w *world) applyNew(o op) {
 		}
 		m = cp(o.data)
 	}
-	i := w.adopt(c, m)
-	if len(m) > 0 || len(o.parts) > 0 || o.mode == newOne || o.mode == newJSON {
+	i := w.adopt(c, m, len(o.parts)+1)
+	if !w.light && (len(m) > 0 || len(o.parts) > 0 || o.mode == newOne || o.mode == newJSON) {
 		w.everHeld[i] = true
 	}
 }
 
 // number applies GetNextN<width>.
-func (w *world) number(o op, e *ent, name string, width uint) {
+func (w *world) number(o op, e *ent, name fmt.Stringer, width uint) {
 	var got uint64
 	var err error
 	switch width {
@@ -605,7 +642,7 @@ func (w *world) number(o op, e *ent, name string, width uint) {
 }
 
 // block applies GetNextBlock / GetNextBlockAsContainer (composite: number, then body).
-func (w *world) block(o op, e *ent, name string) {
+func (w *world) block(o op, e *ent, name fmt.Stringer) {
 	before := len(e.m)
 	var data []byte
 	var sub *container.Container
@@ -625,6 +662,9 @@ func (w *world) block(o op, e *ent, name string) {
 			w.fail("%s returned an error together with data", name)
 		}
 		w.f.failedConsume = true
+		if st == refOK && v >= 1<<63 {
+			w.f.bigNum = true
+		}
 		// Either nothing or exactly the well-formed length prefix is gone; never part of a token.
 		gone := before - e.c.Length()
 		switch {
@@ -656,10 +696,13 @@ func (w *world) block(o op, e *ent, name string) {
 		}
 		e.m = e.m[k+int(v):]
 		w.f.split = true
-		w.adopt(sub, cat(want))
+		w.adopt(sub, cat(want), e.slots)
 	}
 	if v >= 128 {
 		w.f.twoByteLen = true
+	}
+	if !minimal {
+		w.f.nonMinimalRead = true
 	}
 	w.f.blockOK = true
 	w.f.granted += k + int(v)
@@ -675,7 +718,7 @@ func clampReq(n, held int) int {
 	return n
 }
 
-func (w *world) applyTo(o op, e *ent, name string) {
+func (w *world) applyTo(o op, e *ent, name fmt.Stringer) {
 	held := len(e.m)
 	// the slice handed to the container is a private copy: the container keeps it ("Data will NOT be copied")
 	var arg []byte
@@ -809,7 +852,7 @@ func (w *world) applyTo(o op, e *ent, name string) {
 				w.fail("%s returned a container of %d bytes", name, sub.Length())
 			}
 			if sub != nil {
-				w.adopt(sub, nil)
+				w.adopt(sub, nil, 1)
 			}
 		case o.n > held:
 			if sub != nil {
@@ -830,7 +873,7 @@ func (w *world) applyTo(o op, e *ent, name string) {
 			}
 			w.f.split = true
 			w.f.granted += o.n
-			w.adopt(sub, m) // content is compared by checkAll
+			w.adopt(sub, m, e.slots) // content is compared by checkAll
 		}
 	case opWriteToSlice:
 		const sentinel = 0xA5
